@@ -78,3 +78,24 @@ TRUSTED = ["Verus 0.2026.09.13 + bundled Z3", "rewrite R10 (lock elision): insid
 ASSUMPTIONS = ["all byte counts <= usize::MAX/4 (no wrap of sums of up to three counts)", "sequential semantics; per-operation contracts are the linearisation-point specifications, the concurrent step is not machine-checked"]
 NOT_COVERED = ["thread interleavings", "TrackConsumersPool's per-consumer HashMap beyond TrackedConsumer"]
 EXPLANATION = ""
+
+KANI = [dict(package="datafusion-execution", timeout=2400, harnesses=[
+    dict(name="c17_greedy_try_grow", module="execution/memory_pool_pool.rs", complete=True,
+         what="GreedyMemoryPool::try_grow, full domain (<= usize::MAX/2): granted iff used+a <= pool_size; Ok adds exactly; Err changes nothing"),
+    dict(name="c17_greedy_unbounded_grow_shrink", module="execution/memory_pool_pool.rs", complete=True,
+         what="Greedy/Unbounded grow, shrink, try_grow: exact deltas, reserved() reports the counter"),
+    dict(name="c17_tracked_consumer", module="execution/memory_pool_pool.rs", complete=True,
+         what="TrackedConsumer::{grow, shrink}: exact reserved, peak = running max >= reserved"),
+    dict(name="c17_fair_try_grow_narrow_bounded", module="execution/memory_pool_pool.rs", complete=False, bound="all counters < 2^10, num_spill < 8",
+         what="Kani twin of the Verus unit on the unextracted FairSpillPool::try_grow (cross-check of rewrite R10)"),
+    dict(name="c17_peak_recording", module="execution/peak_recording.rs", complete=True,
+         what="PeakRecordingPool::{try_grow, grow, shrink, reset_peak} over an inner pool with arbitrary outcome: exact running total, peak/max are running maxima, failed attempt moves nothing, peak >= current, max >= peak"),
+    dict(name="c17_ledger_step", module="execution/memory_pool_mod.rs", complete=True,
+         what="MemoryReservation::{grow,try_grow,shrink,try_shrink,free,resize,try_resize,split,take,new_empty,drop} against the pool contract: reserved() == sum of live reservations after every step; exact delta; zero after dropping all"),
+    dict(name="c17_ledger_shrink_beyond_size_panics", module="execution/memory_pool_mod.rs", complete=True,
+         what="shrink/split beyond the reservation size panic (should_panic harness)"),
+])]
+TRUSTED += ["Kani 0.68 / CBMC 6.11; atomics executed sequentially", "parking_lot slow paths stubbed unreachable (no contention without threads)",
+            "ledger harness uses a pool double that obeys exactly the try_grow contract proved for the real pools (modular step)"]
+ASSUMPTIONS += ["Kani harnesses: byte counts <= usize::MAX/8 resp. /2 (no wrap)"]
+EXPLANATION = "FairSpillPool proved in Verus (division/fair share), all other pools and the reservation ledger proved by loop-free full-domain Kani harnesses on the real crate."
